@@ -3,7 +3,7 @@
 # quick check runs against that worktree (VERIF_REPO for the proofs, PYTHONPATH for everything that imports formulae), with evidence
 # and replays redirected to scratch directories. usage: seed_matrix_par.sh [jobs] > MATRIX.txt
 cd "$(dirname "$0")/.."
-J=${1:-4}
+J=${1:-4}; PAT=${2:-*}
 W=$(mktemp -d /tmp/smw.XXXX)
 run_one() {
   s=$1; W=$2; p=${s%%_*}
@@ -17,6 +17,6 @@ run_one() {
   git -C /repo worktree remove --force $wt
 }
 export -f run_one
-ls -d seeded/*/ | xargs -n1 basename | xargs -P $J -I{} bash -c "run_one {} $W" | sort
+ls -d seeded/$PAT/ | grep -v "/_" | xargs -n1 basename | xargs -P $J -I{} bash -c "run_one {} $W" | sort
 git -C /repo worktree prune
 rm -rf $W
